@@ -86,6 +86,7 @@ package bus
 //@   modifies everything
 //@   call MethodID#1: assert[C04] arg0 == method && arg1 == args.sig
 //@   call CallID#1: assert[C04] arg0 == methodID && len(arg1) == buf.len - buf.pos
+//@   call CallID#1: assert[C04] forall j int {arg1[j]} :: 0 <= j && j < len(arg1) ==> arg1[j] == buf.data[buf.pos + j]
 //@   call NewBuffer#1: assert[C04,C08] arg0 == res
 //@   call Read#1: ghost_after p.client.decfail := result0 != nil
 //@   call DecodeFrom#1: ghost_after p.client.decfail := result0 != nil
